@@ -115,6 +115,7 @@ class Ref:
         out.append(('n %d dim %d bydim %s' % (len(self.c), d, ' '.join(map(str, by)))).rstrip())
         out.append(('verts ' + ' '.join(str(s[0]) for s in sorted(self.c) if len(s) == 1)).rstrip())
         out.append(('skel1 ' + ' '.join(W(s) for s in sorted(self.c) if len(s) <= 2)).rstrip())
+        out.append(('skel2 ' + ' '.join(W(s) for s in sorted(self.c) if len(s) <= 3)).rstrip())
         for s in sorted(self.c):
             ss = set(s)
             bd = []
